@@ -189,11 +189,18 @@ pub fn domain(f: Family, k: Kind, refs: &Refs, level: u8) -> Vec<Vec<u8>> {
 					// a path starting with an empty segment after an authority, differing late
 					"s://h//x/y".to_string(), "s://h//x/z".to_string(), "s://h//x/y?q".to_string(), "s://h//x/y?r".to_string(), "s://h//x/y#f".to_string(), "s://h//x".to_string(),
 					"s://h//x/".to_string(),
+					"s:p#a?b".to_string(), "s:p#a%3Fb".to_string(), "s:p#a%3fb".to_string(), "s:p?a#b?c".to_string(), "s:p?a#b%3Fc".to_string(),
 					"s://[::a]/p".to_string(), "s://[::A]/p".to_string(), "s://h:9/".to_string(), "s://h:10/".to_string(), "s://h:70000/".to_string(),
 					"s://[::1]/a".to_string(), "s://%5B%3A%3A1%5D/a".to_string(), "s://[::01]/a".to_string(), "s://u%40h/a".to_string(), "s://u@h/a".to_string(),
 					"s://h%3A80/a".to_string(), "s://h:80/a".to_string(), "s://[::1]".to_string(), "s://%5B%3A%3A1%5D".to_string(),
 			] {
 				all.push(t.into_bytes());
+			}
+			if f == Family::Iri {
+				// non-ASCII text in every component, next to its escaped spelling
+				for t in ["s://h/é", "s://h/%C3%A9", "s:é/b", "s:%C3%A9/b", "s://é/", "s://%C3%A9/", "s://é@h/", "s://h/p?é", "s://h/p?%C3%A9", "s://h/p#é", "s://h/p#%C3%A9", "s://h/\u{10000}"] {
+					all.push(domains::b(t));
+				}
 			}
 			// beyond the 16-segment inline buffer of the normalised-segment iterator
 			for lp in long_paths().into_iter().filter(|p| p.starts_with(b"/")) {
@@ -331,8 +338,89 @@ fn run_prop(ctx: &Ctx, prop: &'static str) -> Report {
 			total.merge(r);
 		}
 	}
+	if prop == "C08" && Family::active().contains(&Family::Uri) {
+		// the owned / borrowed data-URL pair (feature `data`): DataUrlBuf: Borrow<DataUrl>
+		let mut r = Report::new();
+		for t in data_url_values() {
+			r.states += 1;
+			r.evaluations += 1;
+			for v in data_url_views_case(&t) {
+				r.violate(v);
+			}
+		}
+		total.count("data_url_values", r.states);
+		total.merge(r);
+	}
 	total.info.insert("bounds".into(), json!({"alphabet_level": level}));
 	total
+}
+
+/// Accepted data URLs: every accepted sequence of <= 4 tokens of the C18 alphabet plus a few longer ones.
+pub fn data_url_values() -> Vec<Vec<u8>> {
+	use iref::uri::data::DataUrl;
+	let toks = super::c18::tokens();
+	let mut out: Vec<Vec<u8>> = Vec::new();
+	for si in 0..domains::raw_shard_count(toks.len()) {
+		domains::for_each_raw(&toks, 4, si, |t| {
+			if DataUrl::new(t).is_ok() {
+				out.push(t.to_vec());
+			}
+		});
+	}
+	for t in ["data:text/plain;base64,SGVsbG8=", "data:text/plain,hello%20world", "data:a/b;base64,", "data:,%FF"] {
+		out.push(t.as_bytes().to_vec());
+	}
+	out.sort();
+	out.dedup();
+	out
+}
+
+/// C08 for the data-URL pair: the owned value and its borrowed view hash, compare and look up alike.
+pub fn data_url_views_case(t: &[u8]) -> Vec<Violation> {
+	use crate::fam::uri::{chunky_hash, default_hash, fnv_hash};
+	use iref::uri::data::{DataUrl, DataUrlBuf};
+	use std::borrow::Borrow;
+	let input = json!({"fam": "uri", "data_url": crate::engine::bytes_json(t)});
+	let mk = |what: &str| Violation::new("C08", "data-url-views", what, input.clone());
+	let mut out = Vec::new();
+	let r = crate::engine::guard(|| {
+		let mut probs: Vec<(&'static str, String)> = Vec::new();
+		let o = DataUrlBuf::new(t.to_vec()).ok().expect("accepted data URL");
+		let b: &DataUrl = DataUrl::new(t).ok().expect("accepted data URL");
+		let v: &DataUrl = o.borrow();
+		for (name, ho, hb) in [("fnv", fnv_hash(&o), fnv_hash(b)), ("DefaultHasher", default_hash(&o), default_hash(b)), ("chunk-sensitive", chunky_hash(&o), chunky_hash(b))] {
+			if ho != hb {
+				probs.push(("hash-owned-vs-borrowed", format!("{name}: DataUrlBuf {ho:x}, &DataUrl {hb:x}")));
+			}
+		}
+		if v != b || v.cmp(b) != std::cmp::Ordering::Equal {
+			probs.push(("eq-owned-vs-borrowed", "Borrow<DataUrl> of the owned value differs from the borrowed value of the same text".into()));
+		}
+		let o2 = DataUrlBuf::new(t.to_vec()).ok().unwrap();
+		if o != o2 || o.cmp(&o2) != std::cmp::Ordering::Equal || fnv_hash(&o) != fnv_hash(&o2) {
+			probs.push(("owned-vs-owned", "two owned values of one text differ".into()));
+		}
+		let mut hs = std::collections::HashSet::new();
+		hs.insert(o.clone());
+		if !hs.contains(b) {
+			probs.push(("HashSet<DataUrlBuf>.contains(&DataUrl)", "false for the value just inserted".into()));
+		}
+		let mut bs = std::collections::BTreeSet::new();
+		bs.insert(o.clone());
+		if !bs.contains(b) {
+			probs.push(("BTreeSet<DataUrlBuf>.contains(&DataUrl)", "false for the value just inserted".into()));
+		}
+		probs
+	});
+	match r {
+		crate::engine::Guard::Ok(probs) => {
+			for (what, obs) in probs {
+				out.push(mk(what).obs(obs).exp("owned and borrowed views of one value hash, compare and look up identically"));
+			}
+		}
+		crate::engine::Guard::Panic(pm) => out.push(mk("panic").obs(format!("panic: {pm}")).exp("no panic")),
+	}
+	out
 }
 
 pub fn run_c07(ctx: &Ctx) -> Report {
@@ -369,6 +457,9 @@ pub fn replay_c08(ctx: &Ctx, check: &str, input: &Value) -> Vec<Violation> {
 		Some(f) => f,
 		None => return vec![],
 	};
+	if check == "data-url-views" {
+		return crate::engine::json_bytes(&input["data_url"]).map(|t| data_url_views_case(&t)).unwrap_or_default();
+	}
 	match check {
 		"cross-family" => {
 			let k = input["kind"].as_str().and_then(Kind::parse);
